@@ -250,6 +250,45 @@ def impl_prec(origin, important):
     return str(css.declaration_precedence({'ua': 'user agent'}.get(origin, origin), important))
 
 
+def ra_wire(ra):
+    """resume_at (None | nested dict) -> wire"""
+    if ra is None:
+        return 'none'
+    return [[k, ra_wire(v)] for k, v in ra.items()]
+
+
+def show_ra(ra):
+    if ra is None:
+        return 'none'
+    return '(' + ' '.join(f'({k} {show_ra(v)})' for k, v in ra.items()) + ')'
+
+
+def tree_wire(t):
+    page, is_parent, in_flow, kids = t
+    return [g.s(page), is_parent, in_flow, [tree_wire(k) for k in kids]]
+
+
+def tree_boxes(t):
+    _, boxes, _, _, _ = _mods()
+    page, is_parent, in_flow, kids = t
+    style = {'page': page, 'float': 'none' if in_flow else 'left', 'position': 'static'}
+    if is_parent:
+        return boxes.BlockBox('div', style, None, [tree_boxes(k) for k in kids])
+    return boxes.TextBox('span', style, None, 'x')
+
+
+def impl_includes(resume, group):
+    _, _, _, page, _ = _mods()
+    return str(bool(page._includes_resume_at(copy.deepcopy(resume), copy.deepcopy(group)))).lower()
+
+
+def impl_groups(groups, resume, brk, name, tree):
+    _, _, _, page, _ = _mods()
+    page_groups = [[n, i, copy.deepcopy(r)] for n, i, r in groups]
+    page._update_page_groups(page_groups, copy.deepcopy(resume), {'break': brk, 'page': name}, tree_boxes(tree))
+    return '(' + ' '.join(f'({g.s(n)} {i} {show_ra(r)})' for n, i, r in page_groups) + ')'
+
+
 # ---- property clauses stated directly (judge) -----------------------------------------------------
 
 def num(atom):
@@ -307,7 +346,7 @@ def clause_variable(specs, avail, b_generated, out):
 class C14(PropCheck):
     id = 'C14'
     extractors = (margin_boxes.generate,)
-    modules = ('WpModel.Props.C14', 'WpModel.Witness.C14')
+    modules = ('WpModel.Props.C14', 'WpModel.Props.C14Strings', 'WpModel.Props.C14Variable', 'WpModel.Props.C14Groups', 'WpModel.Witness.C14')
     trusted_base = (
         'modelled, not verified: layout/page.py page_width_or_height, page_width/page_height (+ min_max.py), '
         'compute_fixed_dimension, compute_variable_dimension, make_margin_boxes (geometry), make_page (geometry), '
@@ -329,6 +368,7 @@ class C14(PropCheck):
     def correspondence(self, run):
         docs.quiet()
         rng = run.rng
+        self._tagged = []
         self._page_box(run, rng)
         self._fixed(run, rng)
         self._variable(run, rng)
@@ -337,11 +377,45 @@ class C14(PropCheck):
         self._strings(run, rng)
         self._selectors(run, rng)
         self._cascade(run, rng)
+        self._groups(run, rng)
         c14_docs.correspondence(self, run)
+        self._model_branches(run)
+
+    TAGGED = ('pwh', 'pdim', 'fixed', 'variable', 'remake', 'update', 'getstring', 'parsesel', 'match')
+
+    def _section(self, run, name, rule):
+        """A section whose protocol lines are also sent to the driver as `tag <line>`: the branch the
+        *model* takes on each input feeds the branch histogram of the evidence."""
+        sec = run.section(name, rule)
+        if getattr(run, 'found', None) is not None:         # search mode: no model run
+            return sec
+        prop = self
+
+        class Tagged:
+            def add(self, line, impl_out, **kw):
+                if line.split(' ', 1)[0] in prop.TAGGED:
+                    prop._tagged.append((sec, line))
+                sec.add(line, impl_out, **kw)
+        return Tagged()
+
+    def _model_branches(self, run):
+        if not getattr(self, '_tagged', None):
+            return
+        tags = lean.run_driver(self.driver, ['tag ' + line for _, line in self._tagged])
+        seen = collections.Counter()
+        for (sec, _), tag in zip(self._tagged, tags):
+            sec.tags[tag] += 1
+            seen[tag] += 1
+        every = lean.run_driver(self.driver, ['alltags'])[0].split()
+        run.extra['model_branches'] = len(every)
+        run.extra['model_branches_hit'] = sum(1 for t in every if seen[t])
+        run.extra['model_branches_never_hit'] = [t for t in every if not seen[t]]
+        run.extra['fixed_dimension_rule_paths'] = {t: n for t, n in sorted(seen.items()) if t.startswith('fixed:')}
+        self._tagged = []
 
     # -- page_width_or_height / page_width / page_height ----------------------------------------------
     def _page_box(self, run, rng):
-        sec = run.section(
+        sec = self._section(run, 
             'page-box', 'page_width_or_height on real PageBox + Horizontal/VerticalBox with Fractions, all 8 auto '
             'patterns, adversarial lengths; non-trivial = at least one auto value')
         for i in range(run.n(3000, 40000)):
@@ -356,7 +430,7 @@ class C14(PropCheck):
             sec.add(sx.line('pwh', inner, ma, mb, sum(spacing), cb), out,
                     meta={'fn': 'pwh', 'args': [inner, ma, mb, spacing, cb, vertical]}, nontrivial=pattern != 0,
                     tags=[f'auto{pattern}', 'adversarial' if adv else 'plain'])
-        sec = run.section(
+        sec = self._section(run, 
             'page-min-max', 'page_width / page_height (handle_min_max_*) with min/max (inf included); non-trivial = '
             'a min or max constraint is active')
         for i in range(run.n(3000, 40000)):
@@ -377,7 +451,7 @@ class C14(PropCheck):
 
     # -- compute_fixed_dimension ----------------------------------------------------------------------
     def _fixed(self, run, rng):
-        sec = run.section(
+        sec = self._section(run, 
             'fixed-dimension', 'compute_fixed_dimension on real MarginBox, all 8 auto patterns x vertical x '
             'top_or_left; non-trivial = not the plain one-auto case')
         for i in range(run.n(4000, 60000)):
@@ -397,7 +471,7 @@ class C14(PropCheck):
 
     # -- compute_variable_dimension -------------------------------------------------------------------
     def _variable(self, run, rng):
-        sec = run.section(
+        sec = self._section(run, 
             'variable-dimension', 'compute_variable_dimension on three real MarginBoxes with stub min/max-content '
             'widths (horizontal, Fractions) — every combination of auto inner sizes, B generated or not; '
             'non-trivial = a flex-fit branch runs (two autos or auto B)')
@@ -411,6 +485,7 @@ class C14(PropCheck):
             draw = (lambda **k: g.dyadic(rng, **k)) if vertical else (lambda top=200, **k: g.length(rng, top=top, **kw))
             specs = []
             autos = i // 5 % 8
+            degenerate = rng.choice([0] * 16 + [1, 1, 2])
             for j in range(3):
                 if j == 1 and not b_generated:
                     specs.append((F(0), F(0), F(0), [F(0)] * 4, F(0), F(0)))
@@ -421,6 +496,12 @@ class C14(PropCheck):
                 spacing = [draw(top=6) for _ in range(4)]
                 mn = draw(top=120)
                 mx = mn + draw(top=200) if rng.random() < 0.9 else draw(top=120)
+                if degenerate == 1:        # equal min- and max-content sizes: the flex factors are all 0
+                    mx = mn
+                elif degenerate == 2:      # empty boxes: every flex factor sum is 0 (`flex_factor_sum = 1`)
+                    mn = mx = F(0)
+                    ma = mb = F(0)
+                    spacing = [F(0)] * 4
                 specs.append((inner, ma, mb, spacing, mn, mx))
             if rng.random() < 0.03 and not b_generated:
                 specs[1] = (g.length(rng), F(0), F(0), [F(0)] * 4, F(0), F(0))    # assert box_b.inner == 0
@@ -454,12 +535,12 @@ class C14(PropCheck):
 
     # -- sides and blank pages ------------------------------------------------------------------------
     def _sides(self, run, rng):
-        sec = run.section('init-side', 'initialize_page_maker on a real root box: all 10 break values x 2 directions')
+        sec = self._section(run, 'init-side', 'initialize_page_maker on a real root box: all 10 break values x 2 directions')
         for brk in BREAKS:
             for ltr in (True, False):
                 sec.add(sx.line('initside', brk, ltr), docs.outcome(lambda: impl_initside(brk, ltr)),
                         meta={'fn': 'initside', 'args': [brk, ltr]}, nontrivial=brk in ('left', 'right', 'recto', 'verso'))
-        sec = run.section(
+        sec = self._section(run, 
             'remake-side', 'the real remake_page (make_page / style computation stubbed): every next_page break x '
             'right_page x direction x pending-footnote flag, several indexes and names; non-trivial = a side is requested')
         for brk in ['any'] + BREAKS:
@@ -474,7 +555,7 @@ class C14(PropCheck):
 
     # -- counters -------------------------------------------------------------------------------------
     def _counters(self, run, rng):
-        sec = run.section(
+        sec = self._section(run, 
             'standardize-counters', '_standardize_page_based_counters on dict styles (page and margin context); '
             'non-trivial = some list is non-empty')
         for _ in range(run.n(1500, 20000)):
@@ -485,7 +566,7 @@ class C14(PropCheck):
                     meta={'fn': 'standardize', 'args': [is_page] + [l if l == AUTO else [list(p) for p in l] for l in lists]},
                     nontrivial=any(l not in (AUTO, ()) for l in lists),
                     tags=['page' if is_page else 'margin'])
-        sec = run.section(
+        sec = self._section(run, 
             'update-counters', 'build.update_counters on arbitrary (values, scope) states, including states that '
             'break its invariants (KeyError / IndexError / AssertionError outcomes); non-trivial = some list non-empty')
         for _ in range(run.n(3000, 40000)):
@@ -507,7 +588,7 @@ class C14(PropCheck):
                                                    cincr if cincr == AUTO else list(cincr), list_item]},
                     nontrivial=bool(creset or cset or cincr not in (AUTO, ())),
                     tags=['err' if out.startswith('err:') else 'ok'])
-        sec = run.section(
+        sec = self._section(run, 
             'page-states', 'the page_state protocol (deepcopy, standardize, update_counters, final `pages`) over '
             '1..40 pages of @page counter styles; non-trivial = some page touches a counter')
         for _ in range(run.n(600, 8000)):
@@ -529,14 +610,14 @@ class C14(PropCheck):
 
     # -- string() / element() -------------------------------------------------------------------------
     def _strings(self, run, rng):
-        sec = run.section(
+        sec = self._section(run, 
             'named-strings', 'LayoutContext.get_string_or_element_for on a dict store and a chain of real boxes: '
             'every keyword, assignments on random pages, empty lists (IndexError); non-trivial = the store is not empty')
         words = ['aa', 'bb', 'cc', 'dd', 'ee']
         for _ in range(run.n(4000, 60000)):
             npages = rng.randrange(1, 9)
             pages = sorted(rng.sample(range(0, npages + 2), rng.randrange(0, min(4, npages + 2))))
-            store = [(p, [rng.choice(words) for _ in range(rng.choice([1, 1, 2, 3] + ([0] if rng.random() < 0.05 else [])))])
+            store = [(p, [rng.choice(words) for _ in range(rng.choice([1, 1, 2, 3] + ([0] if rng.random() < 0.1 else [])))])
                      for p in pages]
             current = rng.randrange(0, npages + 2)
             if store and rng.random() < 0.4:
@@ -552,7 +633,7 @@ class C14(PropCheck):
 
     # -- page selectors -------------------------------------------------------------------------------
     def _selectors(self, run, rng):
-        sec = run.section(
+        sec = self._section(run, 
             'parse-page-selectors', 'parse_page_selectors on tinycss2-parsed preludes built from names, pseudo-classes, '
             ':nth() forms (with `of`), commas, stray literals, comments; non-trivial = at least one pseudo-class or comma')
         seen = set()
@@ -566,7 +647,7 @@ class C14(PropCheck):
                 continue
             sec.add(sx.line('parsesel', toks), out, meta={'fn': 'parsesel', 'args': [text]},
                     nontrivial=':' in text or ',' in text, tags=['rejected' if out == 'none' else 'parsed'])
-        sec = run.section(
+        sec = self._section(run, 
             'page-type-match', 'StyleFor._page_type_match on random selector types x page types (nth with negative '
             'and zero steps, groups); non-trivial = the selector constrains something')
         for _ in range(run.n(6000, 80000)):
@@ -587,15 +668,82 @@ class C14(PropCheck):
             sec.add(sx.line('match', g.sel_wire(**sel), g.page_type_wire(pt)), out,
                     meta={'fn': 'match', 'args': [sel, pt]},
                     nontrivial=any(v is not None for v in sel.values()), tags=[out])
-        sec = run.section('precedence', 'declaration_precedence on 3 origins x importance')
+        sec = self._section(run, 'precedence', 'declaration_precedence on 3 origins x importance')
         for origin in ('ua', 'user', 'author'):
             for imp in (False, True):
                 sec.add(sx.line('prec', origin, imp), docs.outcome(lambda: impl_prec(origin, imp)),
                         meta={'fn': 'prec', 'args': [origin, imp]})
 
+    # -- page groups ----------------------------------------------------------------------------------
+    def _groups(self, run, rng):
+        def rand_tree(depth):
+            is_parent = depth > 0 and rng.random() < 0.85
+            kids = [rand_tree(depth - 1) for _ in range(rng.choice([0, 1, 2, 3]))] if is_parent else []
+            return (rng.choice(['', '', 'a', 'b']), is_parent, rng.random() < 0.8, kids)
+
+        def rand_path(tree, adversarial):
+            """A resume_at following the tree (mostly), as nested dicts."""
+            _, _, _, kids = tree
+            if not kids or rng.random() < 0.1:
+                k = rng.randrange(0, 4)
+            else:
+                k = rng.randrange(len(kids))
+            sub = None
+            if k < len(kids) and kids[k][3] and rng.random() < 0.6:
+                sub = rand_path(kids[k], adversarial)
+            d = {}
+            if adversarial and rng.random() < 0.3:          # a second (earlier) key: parallel flows
+                d[rng.choice([x for x in range(5) if x != k])] = None if rng.random() < 0.5 else {0: None}
+            d[k] = sub
+            if adversarial and rng.random() < 0.05:
+                d = {}
+            return d
+
+        def prefix(ra):
+            """A group resume_at that (mostly) includes `ra`: a prefix of its last-item path."""
+            if ra is None or not ra:
+                return {rng.randrange(3): None}
+            k, v = list(ra.items())[-1]
+            if rng.random() < 0.15:
+                k = rng.randrange(4)
+            if v is None or rng.random() < 0.5:
+                return {k: None}
+            return {k: prefix(v)}
+        sec = self._section(run, 'page-groups', 'the real _update_page_groups / _includes_resume_at on real box '
+                            'trees (style page, ParentBox or not, in flow or floated), resume_at dicts following the tree '
+                            '(adversarial: several keys, empty dicts, indexes out of range, None), 0..3 existing groups; '
+                            'non-trivial = a group exists or one is created')
+        for _ in range(run.n(3000, 40000)):
+            adversarial = rng.random() < 0.2
+            tree = ('', True, True, [rand_tree(3) for _ in range(rng.choice([1, 1, 2]))])
+            resume = rand_path(tree, adversarial) if rng.random() < 0.95 else None
+            groups = [(rng.choice(['a', 'b', 'c']), rng.randrange(0, 5),
+                       prefix(resume) if rng.random() < 0.8 else rand_path(tree, adversarial))
+                      for _ in range(rng.choice([0, 0, 1, 1, 2, 3]))]
+            if adversarial and groups and rng.random() < 0.2:
+                groups[0] = (groups[0][0], groups[0][1], rng.choice([None, {}, {0: None, 1: None}]))
+            brk = rng.choice(['any', 'page', 'auto', 'left', 'right'])
+            name = rng.choice([None, '', 'a', 'a', 'b', 'b'])
+            out = docs.outcome(lambda: impl_groups(groups, resume, brk, name, tree))
+            created = out.startswith('(') and out.count('(s:') > len(groups)
+            sec.add(sx.line('groups', [[g.s(n), i, ra_wire(r)] for n, i, r in groups], ra_wire(resume), brk == 'any',
+                            g.s(name or ''), tree_wire(tree)), out,
+                    meta={'fn': 'groups', 'args': [[list(x) for x in groups], resume, brk, name, tree]},
+                    nontrivial=bool(groups) or created,
+                    tags=['created' if created else ('err' if out.startswith('err:') else 'kept')])
+        sec = self._section(run, 'includes-resume-at', '_includes_resume_at on pairs of nested dicts; non-trivial = true')
+        for _ in range(run.n(1500, 20000)):
+            tree = ('', True, True, [rand_tree(3) for _ in range(2)])
+            adversarial = rng.random() < 0.25
+            resume = rand_path(tree, adversarial) if rng.random() < 0.95 else None
+            group = prefix(resume) if rng.random() < 0.7 else rand_path(tree, adversarial)
+            out = docs.outcome(lambda: impl_includes(resume, group))
+            sec.add(sx.line('includes', ra_wire(resume), ra_wire(group)), out,
+                    meta={'fn': 'includes', 'args': [resume, group]}, nontrivial=out == 'true', tags=[out])
+
     # -- add_page_declarations ------------------------------------------------------------------------
     def _cascade(self, run, rng):
-        sec = run.section(
+        sec = self._section(run, 
             'page-cascade', 'the real StyleFor.add_page_declarations (+ _page_type_match, declaration_precedence) on '
             'random rule lists: origins, !important, specificities, margin-box pseudo types; non-trivial = two '
             'matching declarations of one property')
@@ -666,6 +814,10 @@ class C14(PropCheck):
                 return c14_docs.judge_parsesel(args[0], impl)
             if fn == 'cascade':
                 return c14_docs.judge_cascade(args, impl)
+            if fn == 'includes':
+                return c14_docs.judge_includes(args, impl)
+            if fn == 'groups':
+                return c14_docs.judge_groups(args, impl)
             if fn in ('doc', 'pdf'):
                 return c14_docs.judge_doc(meta, d)
         except Exception as exc:  # a clause that cannot be evaluated is not a verdict
@@ -687,10 +839,14 @@ class C14(PropCheck):
         if not fn:
             return None
         args = c14_docs.revive(args)
+        if fn == 'includes':
+            args = c14_docs.int_keys(args)
+        elif fn == 'groups':
+            args = [[[n, i, c14_docs.int_keys(r)] for n, i, r in args[0]], c14_docs.int_keys(args[1])] + list(args[2:])
         impls = {'pwh': impl_pwh, 'pdim': impl_pdim, 'fixed': impl_fixed, 'initside': impl_initside,
                  'remake': impl_remake, 'standardize': impl_standardize, 'update': impl_update,
                  'pagestates': impl_pagestates, 'getstring': impl_getstring, 'match': impl_match,
-                 'cascade': impl_cascade, 'prec': impl_prec}
+                 'cascade': impl_cascade, 'prec': impl_prec, 'includes': impl_includes, 'groups': impl_groups}
         if fn == 'variable':
             specs, vertical, avail, b_generated = args
             res = docs.outcome(lambda: impl_variable(specs, vertical, avail, b_generated))
@@ -703,7 +859,7 @@ class C14(PropCheck):
             impl = docs.outcome(lambda: impls[fn](*args))
         else:
             return None
-        return self.judge({'meta': {'fn': fn, 'args': c14_docs.revive(meta.get('args'))}, 'impl': impl, 'model': '',
+        return self.judge({'meta': {'fn': fn, 'args': args}, 'impl': impl, 'model': '',
                            'section': '', 'line': ''})
 
 
@@ -720,10 +876,16 @@ MANIFEST = {
             '[min-content, max-content] and never fails; margin boxes occupy exactly their strip in the fixed dimension '
             'and A / B / C are start-aligned / centred / end-aligned in the variable one; pages alternate sides, a '
             'requested side costs at most one blank page; counter(page) = i+1 by induction over the page states, '
-            'counter(pages) = page count on every page; string()/element() lookup rules; MediaBox / TrimBox / BleedBox '
+            'counter(pages) = page count on every page; string()/element() lookup refines the css-gcpm spec over the whole '
+            'page history; three margin boxes sharing a side never overlap when they fit at min-content; page groups '
+            '(_update_page_groups) on single-path resume_at never raise and are a prefix test; MediaBox / TrimBox / BleedBox '
             'arithmetic with zoom.',
     'note': 'Trusted: Lean kernel, the AST translator of the margin-box tables, the harness (mock boxes, stubbed content '
             'widths in direct calls; real content widths with the fixed-pitch font in documents). Margin-box content '
-            'layout, crop/cross marks and page groups (:nth(... of name) at document level) are not modelled. Known '
-            'finding: MediaBox/BleedBox are vertically mirrored when bleed-top != bleed-bottom.',
+            'layout (line breaking inside margin boxes, its final assertion), crop/cross marks, and the re-make passes of '
+            'make_all_pages are not modelled: documents are generated in two families (page groups in one pass / page '
+            'counters in content with re-makes, where PageType.groups is not compared). Known findings: MediaBox mirrored '
+            'for bleed-top != bleed-bottom; @page :nth(2n+) crash; margin boxes overlapping at min-content (deliberate); '
+            'three page-group defects (lost on re-make, blank page counted, not started on the first page); element() '
+            'from a named page crashes the margin box; element(start) ignores running elements.',
 }
